@@ -103,6 +103,9 @@ func c03Call(kind uint64, in Sx) Sx {
 	if kind == 0x0302 && len(out.L) == 1 && out.L[0].Str() == "worker-dead" {
 		// the receiver killed its process: a fresh worker reports what the jail looks like now
 		class := "9"
+		if os.Getenv("C03DEBUG") != "" {
+			fmt.Fprintln(os.Stderr, "c03 worker died:", c03lastStderr)
+		}
 		if strings.Contains(c03lastStderr, "closed channel") {
 			class = "3"
 		} else if n := len(c03lastStderr); n > 0 {
